@@ -89,7 +89,8 @@ TYPES = [
 TYPE_BY_NAME = {t["sql"]: t for t in TYPES}
 
 PATHS = [
-    "lit",  # INSERT with the values written as SQL constants
+    "lit",  # INSERT with the values written as SQL constants (a quote inside a string constant doubled: '')
+    "lit_bs",  # the same with the other documented spelling of a quote inside a string constant: \'
     "pyformat",  # INSERT with %s placeholders, paramstyle pyformat (client side binding)
     "qmark",  # INSERT with ? placeholders, paramstyle qmark (server side binding)
     "insert_select",  # INSERT INTO t SELECT .. FROM staging
@@ -101,7 +102,8 @@ PATHS = [
     "wp_auto",  # write_pandas(auto_create_table=True)
     "wp_opts",  # write_pandas of a several-row DataFrame x chunk_size x DataFrame index x parallel x quote_identifiers
 ]
-SQL_PATHS = ("lit", "pyformat", "qmark")
+SQL_PATHS = ("lit", "lit_bs", "pyformat", "qmark")
+LIT_PATHS = ("lit", "lit_bs")
 DERIVED_PATHS = ("insert_select", "ctas", "clone")
 WP_PATHS = ("wp", "wp_dbschema", "wp_subset", "wp_auto", "wp_opts")
 
@@ -191,6 +193,39 @@ TEXT_VALUES = [
     ("len300", "x" * 298 + "é❄"),
 ]
 
+# The "syntactically active" character sequences of the lexers a statement passes through (string constant, session
+# variable reference, positional reference, dollar-quoted string, comments, the three parameter styles, statement
+# separator, line end).  Inside a value they are plain characters.  For every ORDERED PAIR (a, b) of them a text value
+# containing a then b must round-trip: adjacent ("pair:a+b" = a + b) and apart ("gap:a+b" = a + " x " + b).
+ACTIVE_TOKENS = [
+    ("squote", "'"),
+    ("backslash", "\\"),
+    ("dollar_name", "$name"),  # looks like a session variable (one of that name is SET in the "used" session state)
+    ("dollar_1", "$1"),
+    ("dollar_dollar", "$$"),
+    ("dash_dash", "--"),
+    ("slash_star", "/*"),
+    ("star_slash", "*/"),
+    ("pct_s", "%s"),
+    ("pct_named", "%(x)s"),
+    ("qmark", "?"),
+    ("colon_1", ":1"),
+    ("semicolon", ";"),
+    ("newline", "\n"),
+]
+PAIR_VALUES = [(f"pair:{ka}+{kb}", a + b) for ka, a in ACTIVE_TOKENS for kb, b in ACTIVE_TOKENS]
+GAP_VALUES = [(f"gap:{ka}+{kb}", a + " x " + b) for ka, a in ACTIVE_TOKENS for kb, b in ACTIVE_TOKENS]
+PAIR_TYPES_QUICK = ("VARCHAR",)  # the lexers do not depend on the declared type: one unbounded text type in quick
+
+
+def is_pair_shape(shape) -> bool:
+    return shape.startswith("pair:") or shape.startswith("gap:")
+
+
+# session variables defined in the "used" session state: their names occur in the values ($name, %(x)s)
+SESSION_VARIABLES = [("name", "42"), ("x", "'VARVAL'")]
+SESSION_STATES = ["pristine", "used"]
+
 DATE_VALUES = [
     ("year1", dt.date(1, 1, 1)),
     ("pre_epoch", dt.date(1969, 12, 31)),
@@ -236,6 +271,7 @@ JSON_VALUES = [
     ("json_str", '"s"', "scalar"),
     ("json_empty_str", '""', "scalar"),
     ("json_str_quote", '"q\\"uote"', "scalar"),
+    ("json_str_squote", '"it\'s $name"', "scalar"),
     ("empty_array", "[]", "array"),
     ("empty_object", "{}", "object"),
     ("nested_array", '[1,[2,{"a":null}]]', "array"),
@@ -257,7 +293,10 @@ def values_for(ts):
         return list(FLOAT_VALUES)
     if f == "text":
         ml = ts["maxlen"]
-        return [(k, v) for k, v in TEXT_VALUES if ml is None or len(v) <= ml]  # VARCHAR(n): n characters
+        out = [(k, v) for k, v in TEXT_VALUES if ml is None or len(v) <= ml]  # VARCHAR(n): n characters
+        if ml is None or ml >= 300:
+            out += PAIR_VALUES + GAP_VALUES
+        return out
     if f == "date":
         return list(DATE_VALUES)
     if f == "time":
@@ -288,7 +327,7 @@ QUICK_SHAPES = {
     "ntz": ["epoch_exact", "year1_f1us", "pre_epoch_f999999", "leap_day_fhalf", "year9999_f999999"],
     "tz": ["epoch_exact", "year1_f1us", "pre_epoch_f999999", "leap_day_fhalf", "year9999_f999999"],
     "binary": ["ascii", "empty", "high_nul_ascii"],
-    "json": ["json_null", "json_false", "json_int", "json_empty_str", "json_neg_frac", "json_str_quote", "empty_array",
+    "json": ["json_null", "json_false", "json_int", "json_empty_str", "json_neg_frac", "json_str_quote", "json_str_squote", "empty_array",
              "empty_object", "nested_array", "nested_object"],
 }
 # reduced placements: NULL in the FIRST row is kept (implementations that sniff the first row / first value of a
@@ -325,6 +364,10 @@ def allowed(ts, path, shape, value):
     """Is (type, path, value) part of the demanded product?  Everything left out is listed in c01.py under
     'not demanded' with the reason."""
     f = ts["family"]
+    if is_pair_shape(shape) and path not in SQL_PATHS:
+        return False  # no statement text is built from the value on the other paths (raw staging, DataFrame)
+    if path == "lit_bs" and not (isinstance(value, str) and "'" in value):
+        return False  # without a quote in the value the statement is the one of path "lit"
     if path in SQL_PATHS:
         if f == "float" and shape == "neg_zero":
             return False  # '-0.0' in SQL text is the negation of a fixed-point constant: sign of zero not defined
@@ -414,6 +457,9 @@ def type_applies(ts, path):
         return ts["sql"] in AUTO_TYPES
     if path == "qmark" and ts["family"] == "tz":
         return False
+    if path == "lit_bs":
+        # only types whose alphabet has a value with a quote in its constant (text types, VARIANT)
+        return ts["family"] in ("text", "json") and any("'" in v for _, v in values_for(ts))
     return True
 
 
@@ -430,7 +476,7 @@ def cells(ts, path, tier):
     placements = PLACEMENTS
     if tier == "quick":
         keep = QUICK_SHAPES[ts["family"]]
-        vals = [(k, v) for k, v in vals if k in keep]
+        vals = [(k, v) for k, v in vals if k in keep or (k.startswith("pair:") and ts["sql"] in PAIR_TYPES_QUICK)]
         placements = QUICK_PLACEMENTS
     out = []
     k = 0
@@ -439,6 +485,8 @@ def cells(ts, path, tier):
         if not allowed(ts, path, shape, v):
             continue
         for pl in placements:
+            if is_pair_shape(shape) and pl not in ("none", "middle"):
+                continue  # alone, and twice in one statement around a NULL (a mis-lexed quote spills into the next row)
             base = 10 * k + 1
             if pl == "after_identity":
                 if shape == ident_shape:
@@ -456,7 +504,7 @@ def cells(ts, path, tier):
                 rows = [(base, v), (base + 1, None), (base + 2, v)]
             out.append({"k": k, "shape": shape, "null": pl, "rows": rows})
             k += 1
-    if not (path == "wp_auto"):  # the column type of an all-NULL DataFrame column is not defined
+    if path not in ("wp_auto", "lit_bs"):  # the column type of an all-NULL DataFrame column is not defined
         base = 10 * k + 1
         out.append({"k": k, "shape": "null", "null": "all", "rows": [(base, None), (base + 1, None)]})
     return out
@@ -466,10 +514,11 @@ def cells(ts, path, tier):
 # rendering values as SQL text (Snowflake syntax)
 
 
-def sql_string(s: str) -> str:
-    """Single-quoted Snowflake string constant: quote doubled, backslash escaped (escape sequences are
-    processed in single-quoted constants), everything else verbatim (including a raw newline)."""
-    return "'" + s.replace("\\", "\\\\").replace("'", "''") + "'"
+def sql_string(s: str, bs: bool = False) -> str:
+    """Single-quoted Snowflake string constant: backslash escaped (escape sequences are processed in single-quoted
+    constants), a quote doubled ('') or - bs - backslash-escaped (\\'), everything else verbatim (including a raw
+    newline)."""
+    return "'" + s.replace("\\", "\\\\").replace("'", "\\'" if bs else "''") + "'"
 
 
 def iso_time(t: dt.time) -> str:
@@ -480,8 +529,8 @@ def iso_ts(v: dt.datetime) -> str:
     return f"{v.year:04d}-{v.month:02d}-{v.day:02d} {iso_time(v.time())}"
 
 
-def sql_literal(ts, v) -> str:
-    """SQL constant expression for value v of type ts (None -> NULL)."""
+def sql_literal(ts, v, bs: bool = False) -> str:
+    """SQL constant expression for value v of type ts (None -> NULL); bs = spell a quote inside a string as \\'."""
     if v is None:
         return "NULL"
     f = ts["family"]
@@ -494,7 +543,7 @@ def sql_literal(ts, v) -> str:
     if f == "float":
         return repr(float(v))
     if f == "text":
-        return sql_string(v)
+        return sql_string(v, bs)
     if f == "date":
         return f"'{v.year:04d}-{v.month:02d}-{v.day:02d}'"
     if f == "time":
@@ -507,7 +556,7 @@ def sql_literal(ts, v) -> str:
     if f == "binary":
         return f"TO_BINARY('{v.hex().upper()}', 'HEX')"
     if f == "json":
-        return json_expr(ts, sql_string(v))
+        return json_expr(ts, sql_string(v, bs))
     raise AssertionError(f)
 
 
@@ -528,7 +577,7 @@ def bind_value(ts, v):
 
 def uses_select_form(ts, style) -> bool:
     # function calls producing VARIANT are not allowed in a VALUES clause; TO_BINARY is written the same way
-    return ts["family"] == "json" or (ts["family"] == "binary" and style == "lit")
+    return ts["family"] == "json" or (ts["family"] == "binary" and style in LIT_PATHS)
 
 
 def build_insert(ts, table, rows, style):
@@ -537,14 +586,14 @@ def build_insert(ts, table, rows, style):
     params = []
 
     def idx(i):
-        if style == "lit":
+        if style in LIT_PATHS:
             return str(i)
         params.append(i)
         return ph
 
     def val(v):
-        if style == "lit":
-            return sql_literal(ts, v)
+        if style in LIT_PATHS:
+            return sql_literal(ts, v, bs=(style == "lit_bs"))
         params.append(bind_value(ts, v))
         if ts["family"] == "json" and v is not None:
             return json_expr(ts, ph)
@@ -555,7 +604,7 @@ def build_insert(ts, table, rows, style):
     else:
         body = "VALUES " + ", ".join(f"({idx(i)}, {val(v)})" for i, v in rows)
     sql = f"INSERT INTO {table} (ID, V) {body}"
-    return sql, (tuple(params) if style != "lit" else None)
+    return sql, (tuple(params) if style not in LIT_PATHS else None)
 
 
 # --------------------------------------------------------------------------------------------------------------
